@@ -143,6 +143,16 @@ def build_reference(prog):
         if fi.module.kind not in ("py", "pyx"):
             continue
         ref[q] = describe(fi.node)
+    # module-level names (a scalar constant that is new w.r.t. this list is folded back into its uses, see sa/derefactor.py)
+    for mname, m in prog.modules.items():
+        if m.kind not in ("py", "pyx"):
+            continue
+        names = set()
+        for s_ in m.tree.body:
+            for n in ast.walk(s_) if isinstance(s_, (ast.Assign, ast.AnnAssign, ast.AugAssign)) else []:
+                if isinstance(n, ast.Name) and isinstance(n.ctx, ast.Store):
+                    names.add(n.id)
+        ref["#globals:" + mname] = sorted(names)
     return ref
 
 
